@@ -1,5 +1,5 @@
 """C11 — beat -> time matches the exact timeline for all event interleavings (also serves C12/C13 generators)."""
-import itertools, math
+import itertools, math, os
 from decimal import Decimal
 from fractions import Fraction
 import core, gen
@@ -17,8 +17,13 @@ def grid_timings(thorough, seed, widen=False):
     opts = [(k, b) for k in KINDS for b in GRID if not (k == "bpms" and b == 0)]
     out = []
     idx = 0
-    step = 1 if thorough else (211 if not widen else 37)
     for n in range(0, 5):
+        # thorough: every placement of up to three events, and every 12th placement of four (the full 4-event grid
+        # takes ~45 min per property; it can be requested with VERIF_FULL_GRID=1)
+        if thorough:
+            step = 1 if (n <= 3 or os.environ.get("VERIF_FULL_GRID") == "1") else 12
+        else:
+            step = 211 if not widen else 37
         for combo in itertools.combinations(opts, n):
             for lens in itertools.product((0, 1), repeat=n):
                 idx += 1
@@ -68,7 +73,7 @@ def build_cases(ctx, res):
     tds = []
     g, total = grid_timings(ctx.thorough, ctx.seed, ctx.widen)
     res.stats["grid_total"] = total; res.stats["grid_used"] = len(g)
-    res.exhaustive = ctx.thorough
+    res.exhaustive = ctx.thorough and os.environ.get("VERIF_FULL_GRID") == "1"
     tds += [("grid", td) for td in g]
     k = 0
     while k < ctx.scale(150, 3000):
@@ -93,7 +98,7 @@ def run(ctx):
     tds = build_cases(ctx, res)
     res.rule = ("timing data: placements of <= 4 events on the grid {0,.5,1,1.5,2,3} x 2 lengths (%d of %d%s), random data with up "
                 "to 12 events per kind (coincidences forced: pauses at warp start/inside/end, BPM changes in warps, events at 0), "
-                "corpus simfiles; probes: every event beat and warp end, +-1 tick, random on/off-grid and negative beats, x 7 tags. "
+                "corpus simfiles (thorough: all placements of <= 3 events, every 12th of the 4-event ones unless VERIF_FULL_GRID=1); probes: every event beat and warp end, +-1 tick, random on/off-grid and negative beats, x 7 tags. "
                 "impl float vs the property's exact rational timeline (|d| <= 1e-9 s) and vs the Lean model; monotonicity, offset "
                 "shift and redundant-BPM insertion on the impl. non-trivial: >= 2 events of different kinds; distinct by hash of "
                 "the timing data" % (res.stats["grid_used"], res.stats["grid_total"], ", exhaustive" if ctx.thorough else ""))
